@@ -249,13 +249,6 @@ class Sched(object):
         if self.aborting:
             raise seam.SimAbort()
         cur = self.current
-        if pred is None:
-            if what[0] == "flock":
-                key = what[1]
-                run = self.run
-                me = cur.tid
-                pred = lambda: (key not in run.flocks or run.flocks[key][0] == me
-                                or run.flocks[key][0] in run.dead_tasks)
         cur.pred = pred
         cur.blocked_on = what
         try:
